@@ -323,7 +323,8 @@ def check_integer_conversion(prog, rep):
     rep.rule('R4.6', 'Convert::Detail::To(integer -> integer), every instantiation: over the whole source range a value is stored iff it is '
                      'representable in the target, the stored value equals the source, otherwise std::out_of_range (interval cells)', floor=60)
     fs = [f for f in prog.funcs.values() if f.relfile.endswith('conversion_detail/convert_fundamental.h') and f.name == 'To' and len(f.params) == 2
-          and f.params[0]['n'] == 'sourceValue' and f.body is not None]
+          and f.body is not None and 't' in f.params[0] and 't' in f.params[1]
+          and base_type(f.type(f.params[0])) in INT_TYPES and base_type(f.type(f.params[1])) in INT_TYPES]
     for f in sorted(fs, key=lambda g: g.id):
         src, dst = base_type(f.type(f.params[0])), base_type(f.type(f.params[1]))
         if src not in INT_TYPES or dst not in INT_TYPES:
